@@ -27,7 +27,7 @@ from functools import wraps
 from gevent import Timeout
 from gevent.socket import create_connection
 
-from slimta.smtp import SmtpError
+from slimta.smtp import SmtpError, ConnectionLost
 from slimta.smtp.reply import Reply, timed_out, connection_failed
 from slimta.smtp.client import Client
 from slimta import logging
@@ -321,10 +321,17 @@ class SmtpRelayClient(RelayPoolClient):
         try:
             self._connect()
             self._handshake()
+            reused = False
             while result:
                 if self._check_server_timeout():
+                    if not reused:
+                        # A fresh connection that is already being given up
+                        # by the server: report that, a new connection would
+                        # only get the same again.
+                        raise ConnectionLost()
                     self.queue.appendleft((result, envelope))
                     break
+                reused = True
                 self._deliver(result, envelope)
                 if self.idle_timeout is None:
                     break
